@@ -570,13 +570,19 @@ def reportWarnings(obj: model.Documentable, warns: Sequence[str], **kwargs:Any) 
     for message in warns:
         obj.report(message, **kwargs)
 
-def reportErrors(obj: model.Documentable, errs: Sequence[ParseError], section:str='docstring') -> None:
+def reportErrors(obj: model.Documentable, errs: Sequence[ParseError], section:str='docstring', phase:str='parsing') -> None:
+    """
+    Report the errors once per object, section and phase: a failure to render a docstring
+    is still reported when parsing it already produced a (harmless) warning.
+    """
     if not errs:
         return
 
     errors = obj.system.parse_errors[section]
+    reported = obj.system.reported_errors
 
-    if obj.fullName() not in errors:
+    if (section, obj.fullName(), phase) not in reported:
+        reported.add((section, obj.fullName(), phase))
         errors.add(obj.fullName())
 
         for err in errs:
@@ -746,7 +752,7 @@ def safe_to_stan(parsed_doc: ParsedDocstring,
         errs = [get_to_stan_error(e)]
         stan = fallback(errs, parsed_doc, ctx)
         if report:
-            reportErrors(ctx, errs, section=section)
+            reportErrors(ctx, errs, section=section, phase='rendering')
     return stan
 
 def format_docstring_fallback(errs: List[ParseError], parsed_doc:ParsedDocstring, ctx:model.Documentable) -> Tag:
